@@ -66,12 +66,12 @@ CLAIMED = {
     ),
     "C11": dict(
         technique="machine-checked proof in Coq (permutation/sortedness/pairing theorems for the generic coverage + parallel-array rule; completeness of the regenerated rule table against an OpenType schema by vm_compute) + correspondence by vm_compute + name-keyed semantic comparison of real fonts",
-        text="Unbounded theorems for every glyph type, record type and glyph-id function: _sort_by_gid returns a permutation sorted by glyph id (strictly, for distinct glyphs) whose parallel array stays paired with its glyphs (the (glyph, record) relation is unchanged); ReorderList sorts and permutes. A table theorem re-checked on every run: the live _REORDER_RULES covers every coverage field of every GSUB/GPOS/GDEF subtable type/format of a hand-written schema (cross-checked against fontTools' otData) with exactly its parallel array. The model is tied to the code by evaluating it in Coq on random inputs, and reorder_glyphs + save + reload is run on synthetic fonts containing all 25 schema entries, comparing schema-driven name-keyed canonical forms of GSUB/GPOS/GDEF, cmap, hmtx, glyf (incl. composites) and COLR v0/v1, and checking raw coverage order.",
+        text="Unbounded theorems for every glyph type, record type and glyph-id function: _sort_by_gid returns a permutation sorted by glyph id (strictly, for distinct glyphs) whose parallel array stays paired with its glyphs (the (glyph, record) relation is unchanged); ReorderList sorts and permutes. A table theorem re-checked on every run: the live _REORDER_RULES covers every coverage field of every GSUB/GPOS/GDEF subtable type/format of a hand-written schema (cross-checked against fontTools' otData) with exactly its parallel array. The model is tied to the code by evaluating it in Coq on random inputs, and reorder_glyphs + save + reload is run on synthetic fonts containing all 25 schema entries, comparing schema-driven name-keyed canonical forms of GSUB/GPOS/GDEF, cmap, hmtx, glyf (incl. composites), CFF and CFF2 outlines (what each name draws, by pen; finding F19, fixed) and COLR v0/v1, and checking raw coverage order.",
         ref="DESIGN.md 8 C11",
     ),
     "C12": dict(
         technique="machine-checked proof in Coq (glyph-order construction of _copy_svg keeps donor glyph ids and permutes; {gid:05d} naming round trip; advance and placement identities of the extract/generate steps) + correspondence by vm_compute + real maximum_color CLI runs compared name-keyed with their inputs",
-        text="Unbounded theorems: when _copy_svg's order construction succeeds every donor SVG glyph sits at its donor glyph id and the new order is a permutation of the target's (for any glyph type, any increasing gid ranges); the file stem written for a glyph id reads back as that id for every id, so the glyphmap maps each per-glyph SVG to the original glyph; width=0 with viewBox 0 0 w (asc-desc) gives advance exactly w; an OT-SVG glyph extracted under translate(0,asc) lands on its font-space mirror image with scale 1 and no shift; an SVG generated under viewBox=glyph_region is rebuilt with the identity placement. The order model is tied to the real _copy_svg (run on fake fonts) by evaluation in Coq, incl. the IndexError case. End to end through the real `python -m nanoemoji.maximum_color`: fonts nanoemoji emits (COLRv0/v1, picosvg, untouchedsvg; sequences) and hand-made-style COLR/SVG fonts (kerning, mark, ligature and contextual lookups, two palettes, no space glyph, colour glyphs whose name order differs from gid order) x {--bitmaps, --colr_version 0/1, --keep_glyph_names}: cmap, advances, outlines, GSUB/GPOS/GDEF meaning, name, line metrics, the original colour table and CPAL are compared name-keyed; every colour table must cover the same glyphs and COLR and OT-SVG must paint the same picture per glyph; the output must satisfy the C07 validity predicates; the stripped build must equal the kept-names build minus names. Documented limits (CBDT bitmap wider than 255 px, signed-byte line metrics, a palette variable with two opacities in COLRv0) count as rejections only when the input justifies them. CBDT pixels are not compared. Also proved: _copy_colr's glyph order keeps every target glyph id and names each glyph once iff the donor's layer names are fresh in the target.",
+        text="Unbounded theorems: when _copy_svg's order construction succeeds every donor SVG glyph sits at its donor glyph id and the new order is a permutation of the target's (for any glyph type, any increasing gid ranges); the file stem written for a glyph id reads back as that id for every id, so the glyphmap maps each per-glyph SVG to the original glyph; width=0 with viewBox 0 0 w (asc-desc) gives advance exactly w; an OT-SVG glyph extracted under translate(0,asc) lands on its font-space mirror image with scale 1 and no shift; an SVG generated under viewBox=glyph_region is rebuilt with the identity placement. The order model is tied to the real _copy_svg (run on fake fonts) by evaluation in Coq, incl. the IndexError case. End to end through the real `python -m nanoemoji.maximum_color`: fonts nanoemoji emits (glyf COLRv0/v1, CFF and CFF2 COLRv1 as .otf, picosvg, untouchedsvg; sequences) and hand-made-style COLR/SVG fonts (kerning, mark, ligature and contextual lookups, two palettes, no space glyph, colour glyphs whose name order differs from gid order) x {--bitmaps, --colr_version 0/1, --keep_glyph_names}: cmap, advances, outlines, GSUB/GPOS/GDEF meaning, name, line metrics, the original colour table and CPAL are compared name-keyed; every colour table must cover the same glyphs and COLR and OT-SVG must paint the same picture per glyph; the output must satisfy the C07 validity predicates; the stripped build must equal the kept-names build minus names. Documented limits (CBDT bitmap wider than 255 px, signed-byte line metrics, a palette variable with two opacities in COLRv0) count as rejections only when the input justifies them. CBDT pixels are not compared. Also proved: _copy_colr's glyph order keeps every target glyph id and names each glyph once iff the donor's layer names are fresh in the target.",
         ref="DESIGN.md 8 C12",
     ),
     "C13": dict(
